@@ -822,11 +822,15 @@ func hugeTiles(r *fw.Run) {
 		memo[n] = h
 		return h
 	}
-	sizes := []int64{1<<33 + 7, 1<<40 + 1, 1<<56 + 3, 1<<57 + 5, 1 << 58, 1<<60 + 12345, 1<<61 + 1, 1<<62 - 1}
-	heights := []int{1, 2, 4, 5, 8}
-	r.Bounds["virtual_huge_tile_reads"] = fmt.Sprintf("sizes %v x heights %v", sizes, heights)
+	sizes := []int64{511, 512, 513, 700, 1100, 4097, 1<<16 + 3, 1<<20 + 5, 1<<33 + 7, 1<<40 + 1, 1<<56 + 3, 1<<57 + 5, 1 << 58, 1<<60 + 12345, 1<<61 + 1, 1<<62 - 1}
+	heights := []int{1, 2, 4, 5, 8, 9, 10, 12, 16}
+	r.Bounds["virtual_huge_tile_reads"] = fmt.Sprintf("sizes %v x heights %v (heights 12 and 16: three sizes, first 12 index lists)", sizes, heights)
 	for _, n := range sizes {
 		for _, h := range heights {
+			tall := h >= 12
+			if tall && n != 1<<16+3 && n != 1<<20+5 && n != 1<<33+7 {
+				continue
+			}
 			vr := &virtualTiles{h: h, level: level}
 			hr := tlog.TileHashReader(tlog.Tree{N: n, Hash: mth(n)}, vr)
 			var idx [][]int64
@@ -844,6 +848,46 @@ func hugeTiles(r *fw.Run) {
 			}
 			for i := 0; i+1 < len(single); i += 2 {
 				idx = append(idx, []int64{single[i], single[len(single)-1-i]}, []int64{single[len(single)-1-i], single[i], single[i+1]})
+			}
+			if tall && len(idx) > 12 {
+				idx = idx[:12]
+			}
+			// forged tiles: one bit flipped in the first, the middle or the last hash of every served tile of
+			// one level; the read must fail or return true hashes, and nothing served may be saved
+			for fi, ix := range idx {
+				if fi >= 6 {
+					break
+				}
+				for _, where := range []int{0, 1, 2} {
+					for flev := 0; flev <= 2; flev++ {
+						fr := &virtualTiles{h: h, level: level}
+						touched := false
+						fr.forge = func(t tlog.Tile, d []byte) {
+							if t.L != flev || len(d) == 0 {
+								return
+							}
+							pos := []int{0, (t.W / 2) * tlog.HashSize, (t.W - 1) * tlog.HashSize}[where]
+							d[pos+5] ^= 0x10
+							touched = true
+						}
+						l.Execs++
+						l.Transitions++
+						got, err := tlog.TileHashReader(tlog.Tree{N: n, Hash: mth(n)}, fr).ReadHashes(ix)
+						if !touched {
+							continue
+						}
+						c := caseT{Kind: "huge", N: 0, H: h, Indexes: ix, Path: fmt.Sprint(n)}
+						if err == nil {
+							for k, x := range ix {
+								lev, _ := tlog.SplitStoredHashIndex(x)
+								if got[k] != level[lev] {
+									r.Violation(fmt.Sprintf("huge-forged:%d:%d:%v:%d:%d", n, h, ix, flev, where), fmt.Sprintf("reading %v through tiles of a %d-record log (h=%d) with one flipped bit in the level-%d tiles returned a hash that is not the true stored hash", ix, n, h, flev), c)
+								}
+							}
+						}
+						l.Outcomes["huge-forged:"+map[bool]string{true: "refused", false: "true hashes"}[err != nil]]++
+					}
+				}
 			}
 			for _, ix := range idx {
 				l.States++
@@ -883,6 +927,8 @@ func hugeTiles(r *fw.Run) {
 type virtualTiles struct {
 	h     int
 	level []tlog.Hash
+	forge func(t tlog.Tile, data []byte) // corrupts served tiles (nil = honest)
+	saved int                            // tiles handed to SaveTiles while forging
 }
 
 func (v *virtualTiles) Height() int { return v.h }
@@ -896,11 +942,18 @@ func (v *virtualTiles) ReadTiles(tiles []tlog.Tile) ([][]byte, error) {
 		for j := 0; j < t.W; j++ {
 			d = append(d, v.level[t.L*v.h][:]...)
 		}
+		if v.forge != nil {
+			v.forge(t, d)
+		}
 		out[i] = d
 	}
 	return out, nil
 }
-func (v *virtualTiles) SaveTiles(tiles []tlog.Tile, data [][]byte) {}
+func (v *virtualTiles) SaveTiles(tiles []tlog.Tile, data [][]byte) {
+	if v.forge != nil {
+		v.saved += len(tiles)
+	}
+}
 
 // reuse explores call histories on ONE TileHashReader value: a read under a fault, then honest reads of
 // every index, then the first read again without the fault. Whatever the first call did, the later ones
